@@ -17,7 +17,7 @@ RULE = ('messages built through the public constructors: requests (methods x par
         'errors (base class and the six typed classes x explicit/default code and message incl. 0 and "" x data absent/null/values), '
         'responses (ids x results/errors), request batches of length 0..5 with distinct ids, response batches of length 0..5, '
         'batch-level errors; every message is pushed through json.dumps (both to_json() and the library encoder on the object) '
-        'and json.loads, deserialised, serialised again; before each observed round trip the same round trip is done once and every object and container it produced is modified in place; before each serialisation the message is compared with an equal one, printed, measured and iterated. distinct = distinct constructor arguments; non-trivial = not a bare '
+        'and json.loads, deserialised, serialised again; before each observed round trip the same round trip is done once and every object and container it produced is modified in place; before each serialisation the message is compared with an equal one, printed, measured and iterated, and a batch is twice offered a copy of its first message (refused: same id). distinct = distinct constructor arguments; non-trivial = not a bare '
         'parameterless notification / empty batch')
 EXHAUSTIVE = {'quick': False, 'thorough': False}
 TRUSTED_BASE = ['json.dumps/json.loads (stdlib codec, exercised on every case; loads(dumps v) = v assumed for values within the int digit limit)']
@@ -209,7 +209,17 @@ def observers(obj, case, other=None):
         twin = other if other is not None else build(copy.deepcopy(case))
     except Exception:
         return
-    for op in (lambda: obj == twin, lambda: obj != twin, lambda: twin == obj, lambda: repr(obj), lambda: len(obj), lambda: list(obj),
+    def reject_then_retry():
+        # a batch refuses a second message with an id it already holds - however often it is offered
+        first = next((x for x in twin if x.id is not None), None)
+        if first is None:
+            return
+        for _ in range(2):
+            try:
+                obj.append(copy.deepcopy(first))
+            except pjrpc.exceptions.IdentityError:
+                pass
+    for op in (reject_then_retry, lambda: obj == twin, lambda: obj != twin, lambda: twin == obj, lambda: repr(obj), lambda: len(obj), lambda: list(obj),
                lambda: bool(obj)):
         try:
             op()
